@@ -372,6 +372,21 @@ class World:
                             ret("receive", c, self.tok_of(x))
                         if k == "receive":
                             break
+                elif k == "iterate":  # for item in channel: ... (Channel.__iter__ / next); the loop ends when the channel is closed
+                    c = ch(op[1])
+                    it = iter(c)
+                    while True:
+                        call("receive", c)
+                        try:
+                            x = next(it)
+                        except StopIteration:
+                            ret("receive", c, 0, "EOF")
+                            break
+                        except Exception as e:
+                            ret("receive", c, 0, self.classify(e))
+                            break
+                        ret("receive", c, self.tok_of(x))
+                    it = None
                 elif k == "receive_escape":  # a receive whose EOFError / RemoteError escapes the running code
                     c = ch(op[1])
                     call("receive", c)
